@@ -52,6 +52,34 @@ func VerifC02_Field() {
 	c02walk(f)
 }
 
+// fields made by the generic builder (0, 1, 2 and 3 mask arguments) placed in a match and in
+// set-field / reg_load2 actions: the TLVs announce what the containers hold
+func VerifC02_GenericBuilderField() {
+	data := vr.U32("data")
+	var fld *MatchField
+	var err error
+	switch vr.Choice("maskargs", 4) {
+	case 0:
+		fld, err = NewMatchField[uint32, int]("NXM_NX_REG2", data)
+	case 1:
+		fld, err = NewMatchField("NXM_NX_REG2", data, vr.IntRange("ofs", 0, 31))
+	case 2:
+		fld, err = NewMatchField("NXM_NX_REG2", data, 4, 12)
+	default:
+		fld, err = NewMatchField("NXM_NX_REG2", data, 4, 12, vr.Choice("shiftflag", 2))
+	}
+	if err != nil || fld == nil {
+		return
+	}
+	f := NewFlowMod()
+	f.Match.AddField(*fld)
+	ia := NewInstrWriteActions()
+	ia.AddAction(NewActionSetField(*fld), false)
+	ia.AddAction(NewNXActionRegLoad2(fld), false)
+	f.AddInstruction(ia)
+	c02walk(f)
+}
+
 func VerifC02_FlowModInstructions() {
 	f := NewFlowMod()
 	f.Command = vr.U8("command")
